@@ -40,6 +40,7 @@ MIN_REACH = {
     "crops_whose_function_was_assigned_through_the_crop": {"quick": 5, "thorough": 60},
     "farmer_crops_built_by_the_generic_constructor_with_shuffle": {"quick": 10, "thorough": 100},
     "farmer_crops_grown_as_mpi_rank_0": {"quick": 10, "thorough": 150},
+    "sow_time_constants_given_as_pairs_or_a_one_shot_iterable": {"quick": 8, "thorough": 120},
     "farmer_crops_reaped_without_sync": {"quick": 3, "thorough": 40},
     "farmer_crops_with_an_earlier_failed_result_write": {"quick": 10, "thorough": 100},
 }
@@ -232,7 +233,10 @@ def run_case(ctx, case):
                 shuffle_at_sow = case["shuffle"] if (w["mode"] == "grid" or w.get("via") == "sow_combos") and case["shuffle"] else None
                 if ctor_shuffle:
                     shuffle_at_sow = None if case["idx"] % 4 == 1 else "keep"
-                cropkit.sow(crop, w, shuffle_at_sow=shuffle_at_sow)
+                cas_ = ["dict", "zip", "pairs"][case["idx"] % 3]
+                if w["constants"] and cas_ != "dict":
+                    ctx.count("sow_time_constants_given_as_pairs_or_a_one_shot_iterable")
+                cropkit.sow(crop, w, shuffle_at_sow=shuffle_at_sow, constants_as=cas_)
             if case.get("tweak_then_resow") and not case.get("resow_reloaded"):
                 # the documented "tweak a constant and sow again" on the same Crop object; both sides get the new value
                 for fobj in (f1, f2):
